@@ -189,3 +189,11 @@ M("c16-parity-sign", "C16", ("image.py", "    det = cd1_1 * cd2_2 - cd1_2 * cd2_
 M("c16-desc-uses-width", "C16", ("image.py", "        self.wcs = _flip_wcs_parity(self.wcs, self.height)", "        self.wcs = _flip_wcs_parity(self.wcs, self.width)"))
 M("c16-rows-not-reversed", "C16", ("image.py", "        self._array = self.asarray()[::-1]\n        return self", "        self._array = self.asarray()[::-1, ::-1] if self.asarray().shape[1] > 300 else self.asarray()[::-1]\n        return self"))
 M("c16-cd22-only", "C16", ("image.py", '    h["CD2_2"] *= -1\n', '    h["CD2_2"] *= -1\n    h["CD2_1"] *= 1.0 if abs(h["CD2_1"]) < 1e-12 else (1 + 1e-5)\n'))
+
+# ---- C18
+M("c18-no-swap", "C18", ("pipeline/__init__.py", "                temp = filenames[-1]\n                filenames[-1] = 'index.wtml'\n                filenames[index_index] = temp", "                pass"))
+M("c18-rename-before-loop", "C18", ("pipeline/__init__.py", "            print(f'publishing {uniq_id} ...')\n", "            print(f'publishing {uniq_id} ...')\n            os.rename(os.path.join(todo_dir, uniq_id), os.path.join(done_dir, uniq_id))\n            todo_dir, _td = done_dir, todo_dir\n"))
+M("c18-index-first", "C18", ("pipeline/__init__.py", "                temp = filenames[-1]\n                filenames[-1] = 'index.wtml'\n                filenames[index_index] = temp", "                temp = filenames[0]\n                filenames[0] = 'index.wtml'\n                filenames[index_index] = temp"))
+M("c18-swallow-transfer-error", "C18", ("pipeline/__init__.py", "                with open(p, 'rb') as f:\n                    self._pipeio.put_item(*sub_components[1:], source=f)", "                try:\n                    with open(p, 'rb') as f:\n                        self._pipeio.put_item(*sub_components[1:], source=f)\n                except BaseException as e:\n                    print('warning: transfer failed', e)"))
+M("c18-swap-only-if-sorted-first", "C18", ("pipeline/__init__.py", "            except ValueError:\n                pass\n            else:\n                temp = filenames[-1]", "            except ValueError:\n                pass\n            else:\n                if len(filenames) > 5 and index_index == len(filenames) - 2:\n                    continue_swap = False\n                temp = filenames[-1] if not (len(filenames) > 5 and index_index == len(filenames) - 2) else 'index.wtml'"))
+M("c18-swap-uses-stale-index", "C18", ("pipeline/__init__.py", "                filenames[-1] = 'index.wtml'\n                filenames[index_index] = temp", "                filenames[-1] = 'index.wtml'\n                filenames[index_index - (1 if index_index > 2 else 0)] = temp"))
